@@ -454,6 +454,11 @@ MAC_FIXED = [
       ("rename", "O/b", "W/b"), ("rmtree", "W/b")]),
     ([("mkdir", "W/d"), ("create", "W/d/a"), ("create", "W/a")],
      [("rename", "W/d/a", "W/b"), ("rename", "W/a", "W/d/a"), ("unlink", "W/b"), ("rename", "W/d", "W/dd"), ("rmdir", "W")]),
+    # an item that arrives (or is renamed) and is removed before the callback fires: ONE native event with the renamed and
+    # the removed flag, no partner, its path gone - announced as gone once
+    ([("create", "O/a"), ("mkdir", "O/d"), ("create", "W/x")],
+     [("rename", "O/a", "W/a"), ("unlink", "W/a"), ("rename", "O/d", "W/d"), ("rmdir", "W/d"), ("rename", "W/x", "W/y"), ("unlink", "W/y"),
+      ("create", "W/a")]),
 ]
 
 
@@ -493,6 +498,11 @@ def mac_adversarial(res, lean, r, n):
         ([("create", "W/a"), ("mkdir", "W/d")], [("W/a", "999", "f", "n"), ("W/a", "=", "f", "c")]),
         ([("mkdir", "W/d"), ("create", "W/d/a")], [("W/d", "999", "f", "n"), ("W/d", "=", "d", "c")]),
         ([("create", "W/a")], [("W/a", "=", "f", "n")]),
+        # one native event with the renamed AND the removed flag, no partner, its path gone (an item that arrived, or was
+        # renamed, and was removed before the callback fired): announced as gone once
+        ([("create", "W/a")], [("W/zz", "999", "f", "rn")]),
+        ([("mkdir", "W/d")], [("W/d/zz", "998", "d", "rn"), ("W/d", "=", "d", "m")]),
+        ([("create", "W/a")], [("W/zz", "999", "f", "crn")]),
     ]
     for k_case in range(len(fixed) + n):
         init = fixed[k_case][0] if k_case < len(fixed) else pipe.gen_history(r, r.randint(3, 9), no_replace=True)
